@@ -4,6 +4,7 @@ import (
 	"encoding/base64"
 	"errors"
 	"fmt"
+	"sort"
 	"strings"
 	"text/template"
 
@@ -226,6 +227,10 @@ func SprigFuncs(t *template.Template) template.FuncMap {
 		}
 	}
 	allowedFuncs["b64decMap"] = base64decodeMap
+	// sprig's keys and values return entries in Go's random map iteration order,
+	// which would make the rendered output differ between two renders of the same input.
+	allowedFuncs["keys"] = sortedKeys
+	allowedFuncs["values"] = valuesSortedByKey
 
 	includedNames := map[string]int{}
 	// Include function executes a template with given data and returns the result as string.
@@ -250,6 +255,29 @@ func SprigFuncs(t *template.Template) template.FuncMap {
 	allowedFuncs["toYAML"] = toYAML
 	allowedFuncs["fromYAML"] = fromYAML
 	return allowedFuncs
+}
+
+// sortedKeys returns the keys of every given dict in alphabetical order, dict after dict.
+func sortedKeys(dicts ...map[string]any) []string {
+	keys := []string{}
+	for _, dict := range dicts {
+		dictKeys := make([]string, 0, len(dict))
+		for key := range dict {
+			dictKeys = append(dictKeys, key)
+		}
+		sort.Strings(dictKeys)
+		keys = append(keys, dictKeys...)
+	}
+	return keys
+}
+
+// valuesSortedByKey returns the values of the given dict in alphabetical order of their keys.
+func valuesSortedByKey(dict map[string]any) []any {
+	values := make([]any, 0, len(dict))
+	for _, key := range sortedKeys(dict) {
+		values = append(values, dict[key])
+	}
+	return values
 }
 
 func base64decodeMap(data map[string]any) (
